@@ -109,6 +109,7 @@ class FnTranslator:
         self.own_methods = {}          # method name -> qualified name of a translated method it resolves to
         self.builder_methods = set()   # methods of foreign builder types that are built-ins of the same name
         self.uses_features = False
+        self.param_types = {}
 
     def con_name(self, segs):
         # (a value of a type-state builder is a record of the type, whatever the state marker)
@@ -118,7 +119,12 @@ class FnTranslator:
     def path_segs(self, sx):
         if not (isinstance(sx, list) and sx and sx[0] == "path"):
             raise TranslateError("expected a path, got %r" % (sx,))
-        return [norm_seg(S(a)) for a in sx[1:]]
+        segs = [norm_seg(S(a)) for a in sx[1:]]
+        if self.interior:
+            # crate / module prefixes of fully qualified paths (generated code spells everything out)
+            while len(segs) > 1 and segs[0] in CRATE_PREFIXES:
+                segs = segs[1:]
+        return segs
 
     # ---- patterns
     def pat(self, p):
@@ -249,7 +255,10 @@ class FnTranslator:
                 if tgt == "into":
                     return "(ECall \"into\" %s)" % args
                 if tgt.startswith("call:"):
+                    self.calls.add(tgt[5:])
                     return "(ECall %s %s)" % (cs(tgt[5:]), args)
+                if tgt.startswith("ok:"):
+                    return "(ECon \"Ok\" [ECon %s %s])" % (cs(tgt[3:]), args)
                 return "(ECon %s %s)" % (cs(tgt), args)
             self.calls.add(name)
             return "(ECall %s %s)" % (cs(name), args)
@@ -257,6 +266,15 @@ class FnTranslator:
             name = S(e[2])
             if name == "unwrap_or_default":
                 name = self.unwrap_default_name(e[1])
+            if name == "into" and self.interior and e[1][0] == "path" and len(e[1]) == 2 and \
+                    "".join(self.param_types.get(S(e[1][1]), "").split()).startswith("implInto<Option<"):
+                # `x.into()` of a parameter declared `impl Into<Option<T>>`: an Option stays, anything else becomes Some
+                return "(ECall \"into_option\" [%s])" % self.expr(e[1])
+            if name in ("map", "map_err") and self.interior and len(e) == 4 and e[3][0] in ("path", "closure") and \
+                    not (name == "map_err" and e[3][0] == "path" and len(e[3]) == 2):
+                return self.hof_map(e[1], e[3], name == "map_err")
+            if name == "as_slice" and self.interior:
+                name = "into"
             if name == "into" and self.interior:
                 # a conversion into another type (StdError into the contract's error type): kept visible
                 return "(ECon \"Into::into\" [%s])" % self.expr(e[1])
@@ -350,6 +368,31 @@ class FnTranslator:
             raise TranslateError("construct outside the translated subset: %s" % S(e[1])[:160])
         raise TranslateError("unknown expression head %r" % (h,))
 
+    def hof_map(self, recv, f, on_err):
+        """`x.map(f)` / `x.map_err(f)` on a Result or an Option, by definition: f is a named function or a closure of one
+        plain parameter"""
+        self.hof_no = getattr(self, "hof_no", 0) + 1
+        v = "hof_v%d" % self.hof_no
+        if f[0] == "path":
+            segs = self.path_segs(f)
+            name = "::".join(segs)
+            if name in ("Into::into", "From::from"):
+                app = "ECon \"Into::into\" [EVar %s]" % cs(v)
+            elif name in ("str::to_owned", "String::from", "ToOwned::to_owned"):
+                app = "EVar %s" % cs(v)
+            else:
+                self.calls.add(name)
+                app = "ECall %s [EVar %s]" % (cs(name), cs(v))
+        else:
+            if len(f[1]) != 2 or f[1][1][0] != "pident":
+                raise TranslateError("closure with other than one plain parameter")
+            app = "EBlock [SLet (PVar %s) (EVar %s); STail %s]" % (cs(S(f[1][1][1])), cs(v), self.expr(f[2]))
+        keep = lambda c: "(PCon %s [PVar %s], ECon %s [EVar %s])" % (cs(c), cs(v), cs(c), cs(v))
+        conv = lambda c: "(PCon %s [PVar %s], ECon %s [%s])" % (cs(c), cs(v), cs(c), app)
+        none = "(PCon \"None\" [], ECon \"None\" [])"
+        arms = [keep("Ok"), conv("Err")] if on_err else [conv("Ok"), keep("Err"), conv("Some"), none]
+        return "(EMatch %s %s)" % (self.expr(recv), clist(arms))
+
     def try_operand(self, e):
         """operand of `?`; the idiom `xs.into_iter().map(|v| BODY).collect::<StdResult<_>>()` is given its meaning: BODY is
         applied to the elements in order until the first Err, which is the result; otherwise Ok of the list of results"""
@@ -383,7 +426,12 @@ class FnTranslator:
 
 # functions of other crates with a fixed meaning: a constructor of the value they build, or a value-preserving conversion
 FOREIGN = {"StdError::generic_err": "StdError::GenericErr", "Addr::unchecked": "into", "RefCell::new": "into",
-           "Response::new": "call:Response::new"}
+           "Response::new": "call:Response::new", "PhantomData::default": "PhantomData", "Into::into": "Into::into",
+           # serialising a generated message type does not fail: the JSON of the value, as a success
+           "to_json_binary": "ok:to_json_binary",
+           # a parser of another crate: an operation the theorems quantify over
+           "parse_instantiate_response_data": "call:extern::parse_instantiate_response_data"}
+CRATE_PREFIXES = {"sylvia", "cw_std", "multitest", "cw_utils", "cw_multi_test", "std", "core", "marker", "crate"}
 
 
 def cfg_feature_list(text):
@@ -415,6 +463,7 @@ def translate_fn(sx, self_type=None, struct_fields=None, qualified=None, setup=N
         else:
             params.append((S(p[1]), S(p[2])))
     body = sx[5]
+    t.param_types = dict(params)
     for pn, pt in params:
         if "&mut" in pt.replace(" ", "") or pt == "&mut self":
             raise TranslateError("fn %s: parameter %s is a mutable reference (aliasing is not modelled)" % (name, pn))
@@ -448,7 +497,7 @@ def fetch_ast(path):
 
 
 BUILTINS = {"len", "is_empty", "konst::cmp_str", "konst::eq_str", "into", "to_string", "unwrap_or_default_string", "Binary::default",
-            "anyhow::is", "anyhow::downcast", "unwrap", "push", "Response::new", "add_submessages", "add_events", "add_attributes"}
+            "anyhow::is", "anyhow::downcast", "unwrap", "push", "Response::new", "add_submessages", "add_events", "add_attributes", "into_option"}
 
 
 def translate_utils():
@@ -577,6 +626,28 @@ def translate_multitest():
     raise TranslateError("multitest.rs: fn downcast_error not found")
 
 
+MTGEN_WANTED = {"InstantiateProxy": ["with_funds", "with_label", "with_admin", "with_salt", "call"], "CodeId": ["instantiate"]}
+
+
+def translate_mtgen():
+    """The GENERATED instantiate proxy (contract/mt.rs templates emit_instantiate_proxy, emit_instantiate2_body, emit_code_id),
+    for every contract: the templates are turned into source text (tmpl_translate: type-level holes erased, the nested
+    template spliced) and their function bodies translated like the run-time library. The chain's operations
+    (instantiate_contract, execute) and cw_utils::parse_instantiate_response_data are `extern::..` calls."""
+    from . import tmpl_translate, translate
+    _, templates, _ = translate.fetch_tables()
+    path = tmpl_translate.instantiate_proxy_source(templates)
+    kv = fetch_ast(path)
+
+    def setup(t):
+        t.interior = True
+        t.externals = {"instantiate_contract", "execute"}
+        t.own_methods = {"app_mut": "App::app_mut"}
+    return translate_methods(path, MTGEN_WANTED, setup=setup, kv=kv,
+                             extra_known={"downcast_error", "App::app_mut", "into_option", "extern::instantiate_contract", "extern::execute",
+                                          "extern::parse_instantiate_response_data"})
+
+
 RESP_WANTED = {"SubMsg": ["into_msg"], "Response": ["into_response"]}
 
 
@@ -630,6 +701,13 @@ def generate():
     except TranslateError as e:
         resp, _ = [], errors.append("sylvia/src/into_response.rs: %s" % e)
 
+    try:
+        mtgen = translate_mtgen()
+    except Exception as e:          # TranslateError of either translator
+        if type(e).__name__ != "TranslateError":
+            raise
+        mtgen, _ = [], errors.append("generated instantiate proxy (contract/mt.rs templates): %s" % e)
+
     def prog(fns):
         return "  [ " + ";\n    ".join(fns) + " ]." if fns else "  []."
     text = "\n".join([
@@ -647,6 +725,8 @@ def generate():
         "Definition ctx_program : program :=", prog(ctxs), "",
         "(* sylvia/src/multitest.rs: the proxies that send execute / migrate messages to the chain, and downcast_error *)",
         "Definition mt_program : program :=", prog(mt), "",
+        "(* GENERATED code, for every contract: the instantiate proxy of the multitest helpers (templates of contract/mt.rs) *)",
+        "Definition mtgen_fns : program :=", prog(mtgen), "",
         "(* sylvia/src/into_response.rs: IntoMsg / IntoResponse; `enabled_features` = the cargo features switched on *)",
         "Definition resp_program (enabled_features : list string) : program :=", prog(resp), ""])
     return text, errors
